@@ -314,7 +314,7 @@ pub fn run(ctx: &mut Ctx) {
     for (n, ok) in r2::selftest() {
         ctx.selftest(&n, ok);
     }
-    ctx.require(&["annex_kat", "honest_keys_equal", "step2_rejects_invalid_RA", "step3_rejects", "step4_rejects", "klen=1", "klen=16", "klen=200", "kind=OffCurve", "kind=Negated", "kind=OtherPoint", "kind=BitFlipHash", "kind=PermutedHash", "kind=ConstantHash", "klen_needs_more_than_255_kdf_blocks", "honest_R_rerandomised_representation", "id_non_ascii_utf8", "key_from_gen_keypair", "key_with_jacobian_public_point", "degenerate_dA_shared_point_infinity_at_B", "degenerate_dB_shared_point_infinity_at_A", "coincident_dA_P_eq_xbarR_doubling_at_B", "coincident_dB_P_eq_xbarR_doubling_at_A", "crafted_valid_R_A", "derived_key_all_zero", "same_static_key_both_parties", "same_id_both_parties", "many_calls_one_process", "id_length_sweep"]);
+    ctx.require(&["annex_kat", "honest_keys_equal", "step2_rejects_invalid_RA", "step3_rejects", "step4_rejects", "klen=1", "klen=16", "klen=200", "kind=OffCurve", "kind=Negated", "kind=OtherPoint", "kind=BitFlipHash", "kind=PermutedHash", "kind=ConstantHash", "klen_needs_more_than_255_kdf_blocks", "honest_R_rerandomised_representation", "id_non_ascii_utf8", "key_from_gen_keypair", "key_with_jacobian_public_point", "degenerate_dA_shared_point_infinity_at_B", "degenerate_dB_shared_point_infinity_at_A", "coincident_dA_P_eq_xbarR_doubling_at_B", "coincident_dB_P_eq_xbarR_doubling_at_A", "crafted_valid_R_A", "derived_key_all_zero", "same_static_key_both_parties", "same_id_both_parties", "many_calls_one_process", "id_length_sweep", "shared_point_coordinate_leading_zero"]);
     for s in 0..16 {
         ctx.required.push(format!("subset={:04b}", s));
     }
@@ -417,6 +417,39 @@ pub fn run(ctx: &mut Ctx) {
             if rep == 0 {
                 ctx.sample(json!({"derived_key_all_zero": wit(&case)}));
             }
+        }
+    }
+    // --- r_B searched (by the reference) so that a coordinate of the shared point V begins with a zero byte (1 in 128)
+    {
+        let mut pz = ctx.prng("v_zero");
+        for which in 0..2u64 {
+            let sub = pz.next();
+            if !ctx.mine(which + 9) {
+                continue;
+            }
+            let mut q = Prng::new(sub, "vz");
+            let (da, db) = (rand_scalar(&mut q, &(&c.n - 1u32)), rand_scalar(&mut q, &(&c.n - 1u32)));
+            let (ida, idb) = (ascii_id(&mut q, 6), ascii_id(&mut q, 8));
+            let ra = rand_scalar(&mut q, &c.n);
+            let (pa, pb) = (r2::mul(&da, &r2::g()).unwrap(), r2::mul(&db, &r2::g()).unwrap());
+            let (za, zb) = (r2::za(ida.as_bytes(), &pa), r2::za(idb.as_bytes(), &pb));
+            let ra_pt = r2::mul(&ra, &r2::g()).unwrap();
+            let mut found = None;
+            for _ in 0..4000 {
+                let rb = rand_scalar(&mut q, &c.n);
+                let rb_pt = r2::mul(&rb, &r2::g()).unwrap();
+                if let Some(o) = r2::exchange(&db, &rb, &rb_pt, &pa, &ra_pt, &za, &zb, false, 16) {
+                    let b = if which == 0 { r2::b32(&o.shared.0) } else { r2::b32(&o.shared.1) };
+                    if b[0] == 0 {
+                        found = Some(rb);
+                        break;
+                    }
+                }
+            }
+            let Some(rb) = found else { continue };
+            let case = Case { da, db, ida, idb, klen: 16, ra, rb, subset: 0, kind: Kind::OtherPoint, repeat: false };
+            ctx.class("shared_point_coordinate_leading_zero");
+            history(ctx, &case, &mut q);
         }
     }
     // --- identity lengths 0..=130 for either party: the hash input of Z_A / Z_B (194 + |ID| bytes) then takes every
